@@ -11,7 +11,12 @@ def harness(c, n, replay_ops=None):
 
 def run(c):
     c.assumptions += [
-        "limits: TakeMsg never times out (the model has no capacity; the harness gives every scope 16 permits and a session holds at most one)",
+        "limits, whole sessions (op lines `C03 s`): TakeMsg never times out (the session model has no capacity; the harness gives every concurrency limiter 16 or 20 permits, "
+        "every rate limiter 400 tokens that are not refilled within a run, and a session holds at most one permit); the key of the `ip` scope is the same when the permit is taken and "
+        "when it is released (the model counts permits per source key; the harness shows the server IPv4, IPv4-mapped, IPv6, zoned link-local and unix-socket peer addresses and reads "
+        "the real limiter state, every bucket that exists, after the session)",
+        "limits, time-outs (op lines `C03 t`): only the order of the scopes and the roll-back of Group.TakeMsg are modelled (takeMsg/releaseMsg/contend: whether a scope grants is a parameter); "
+        "the 5 s deadline is the code's own and is waited for in real time, a handful of scenarios per run in parallel with the session runs",
         "targets, checks and modifiers are the scripted ones of harness/internal/verifshim/vc03 (results are a function of the MAIL/RCPT addresses and the X-Vc03 header field); "
         "a target operation either returns nil or an error, it does not panic or block",
         "one global check, one global modifier, per-domain destination blocks with 0-3 targets; no source blocks, no per-destination checks/modifiers, no nested pipelines, no recipient rewriting",
@@ -42,7 +47,11 @@ def run(c):
         "failures (temporary/permanent, density 0-70%) injected into check (connection, sender, recipient, body), modifier (init, sender, recipient, body) and every target operation "
         "(Start, AddRcpt, Body, per-recipient BodyNonAtomic status, Commit, Abort); observation = every reply code + per-target call log of every delivery + leaked permits + recovered panics, "
         "compared with the Lean model run on the same script (map iteration order of the fan-outs supplied as an oracle); distinct = distinct scripts; "
-        "independently the typestate / reply / permit monitor (c03Monitor) judges every real session",
+        "peer address shown to the server (accepted net.Conn wrapped: loopback, IPv4, IPv4-mapped IPv6, IPv6 prefix address / hosts of one /64 / next /64, link-local with zone, unix socket) x "
+        "6 limits blocks (concurrency and rate limiters in the all / ip / source scopes, either order, scopes missing); permits out per scope read from the real limiter state (all buckets); "
+        "independently the typestate / reply / permit monitor (c03Monitor) judges every real session; "
+        "plus limit time-outs (TestVerifC03LimitTimeouts): a session holding the single permit of the all / ip / source scope while 1-3 other sessions start a transaction and are refused with 451 "
+        "when TakeMsg gives up, the limiter state compared before / after the time-outs and at the end",
         explanation="theorems over all command lists, configurations, fault plans and fan-out orders; the model (go-smtp connection layer + Session + msgpipelineDelivery) is tied to the code by differential runs of whole sessions",
         search=search,
     )
